@@ -1410,14 +1410,14 @@ func (c *compiler) VisitBinaryExpr(e *ast.BinaryExpr) ast.VisitResult {
 		c.latestReturn = c.cbb.NewFDiv(log10_num, log10_base)
 		c.latestReturnType = c.ddpfloattyp
 	case ast.BIN_LOGIC_AND:
+		lhs, rhs, c.latestReturnType = c.logicOperands(lhs, lhsTyp, rhs, rhsTyp)
 		c.latestReturn = c.cbb.NewAnd(lhs, rhs)
-		c.latestReturnType = c.ddpinttyp
 	case ast.BIN_LOGIC_OR:
+		lhs, rhs, c.latestReturnType = c.logicOperands(lhs, lhsTyp, rhs, rhsTyp)
 		c.latestReturn = c.cbb.NewOr(lhs, rhs)
-		c.latestReturnType = c.ddpinttyp
 	case ast.BIN_LOGIC_XOR:
+		lhs, rhs, c.latestReturnType = c.logicOperands(lhs, lhsTyp, rhs, rhsTyp)
 		c.latestReturn = c.cbb.NewXor(lhs, rhs)
-		c.latestReturnType = c.ddpinttyp
 	case ast.BIN_MOD:
 		if lhsTyp == c.ddpbytetyp && rhsTyp == c.ddpbytetyp {
 			c.latestReturn = c.cbb.NewURem(lhs, rhs)
